@@ -53,7 +53,8 @@ def binary_tables(ctx):
     if not opm:
         return None
     opm = opm[0]
-    inner = [m for m in ce.matches if m["scrut"].replace(" ", "") == "(l,r)"]
+    inner = [m for m in ce.matches if m["scrut"].replace(" ", "") == "(l,r)"] or \
+        [m for m in ce.matches if m["scrut"].strip().startswith("(") and m["scrut_ty"].count("ValueType") == 2]
     out = {}
     ops = ctx.lib.variants("syntax::parser::BinaryOp")
     for op in ops:
@@ -139,6 +140,65 @@ def r1a_typing_tables(ctx):
                     "the static check for %s accepts %s; the documented rule accepts %s" % (rule, sorted(got), sorted(want)))
         else:
             ctx.ok("rule|%s" % rule, "src/resolver.rs", "accepts exactly %s" % sorted(got))
+
+
+def infer_table(ctx):
+    """{(op, l, r): result} of infer_expr_type on a binary node whose operand types are l and r: 'None' or the ValueType
+    name (finite-domain partial evaluation of the MIR decision tree; derived `==` on ValueType is evaluated)."""
+    f = ctx.need("resolver::Resolver::infer_expr_type")
+    ctx.touch(f)
+    out = {}
+    for op in ctx.lib.variants("syntax::parser::BinaryOp"):
+        for l in TYPES:
+            for r in TYPES:
+                ps = peval(f, 0, {"expr": "Binary", "op": op, "l": l, "r": r, "_.0": l, "_.1": r})
+                res = set()
+                for p_ in ps:
+                    if p_["end"] != "return":
+                        res.add("!" + p_["end"])
+                        continue
+                    if sum(1 for e in p_["events"] if e[0] == "call" and e[1].endswith("infer_expr_type")) < 2:
+                        continue
+                    aggs = [e for e in p_["events"] if e[0] == "agg"]
+                    vt = [e[2] for e in aggs if e[1].endswith("ValueType")]
+                    opt = [e[2] for e in aggs if e[1].endswith("Option")]
+                    if not opt:
+                        continue
+                    res.add("None" if opt[-1] == "None" else (vt[-1] if vt else "?"))
+                out[(op, l, r)] = res
+    return out
+
+
+def r1c_inferred_types(ctx):
+    """The type the checker assigns to `a op b` feeds every rule further up the tree.  It must not depend on the order of the
+    operands (no operator of the language is typed asymmetrically), it must be a single answer per cell, and it is defined
+    exactly for the cells check_expr accepts."""
+    tab = infer_table(ctx)
+    acc = binary_tables(ctx) or {}
+    n = 0
+    for (op, l, r), res in sorted(tab.items()):
+        n += 1
+        if len(res) != 1 or any(x.startswith("!") or x == "?" for x in res):
+            ctx.bad("infer|undecided|%s|%s,%s" % (op, l, r), "src/resolver.rs", "cannot evaluate infer_expr_type for %s %s %s (%s)" % (l, op, r, sorted(res)))
+            continue
+        if (l, r) > (r, l):
+            continue
+        mirror = tab.get((op, r, l))
+        if mirror == res:
+            ctx.ok("infer|symmetric|%s|%s,%s" % (op, l, r), "src/resolver.rs", "%s" % sorted(res)[0])
+        else:
+            ctx.bad("infer|asymmetric|%s|%s,%s" % (op, l, r), "src/resolver.rs", "`%s %s %s` is typed %s but `%s %s %s` is typed %s: the static type of an expression changes when its operands are swapped, so a use that type-checks for one order (arithmetic on the sum, indexing with it) is rejected - or a wrong use accepted - for the other" % (l.lower(), op.lower(), r.lower(), sorted(res)[0], r.lower(), op.lower(), l.lower(), sorted(mirror or ["?"])[0]))
+    ctx.floor("binary result-type cells", n, 600)
+    # defined exactly where accepted (reported as a note when today's tree already disagrees somewhere; not a verdict)
+    dis = []
+    for (op, l, r), res in sorted(tab.items()):
+        a = (acc.get(op) or {}).get((l, r))
+        if a is None or len(res) != 1:
+            continue
+        if a != (next(iter(res)) != "None"):
+            dis.append("%s(%s,%s): accepted=%s inferred=%s" % (op, l, r, a, next(iter(res))))
+    if dis:
+        ctx.note("accepted/inferred disagreement in %d cells, e.g. %s" % (len(dis), dis[:4]))
 
 
 def single_operand_sets(ctx):
@@ -679,7 +739,13 @@ def r5_every_child_is_checked(ctx):
             ctx.ok("predeclare|skip-implies-error", pb.where(arm[2]), "every path that does not register a function definition passes an emit_error")
 
 
-RULES = [("C09-R1", r1a_typing_tables), ("C09-R1b", r1b_accepted_is_evaluable), ("C09-R2", r2_rule_presence), ("C09-R3", r3_context_per_function), ("C09-R4", r4_declared_type_follows_latest_declaration), ("C09-R5", r5_every_child_is_checked)]
+def r6_scope_of_a_declaration(ctx):
+    """'Use of an undeclared name is rejected' includes the initialiser of the declaration itself (shared with C04-R4c)."""
+    from .c04 import r4c_initialiser_sees_the_old_scope
+    r4c_initialiser_sees_the_old_scope(ctx)
+
+
+RULES = [("C09-R1", r1a_typing_tables), ("C09-R1b", r1b_accepted_is_evaluable), ("C09-R1c", r1c_inferred_types), ("C09-R2", r2_rule_presence), ("C09-R3", r3_context_per_function), ("C09-R4", r4_declared_type_follows_latest_declaration), ("C09-R5", r5_every_child_is_checked), ("C09-R6", r6_scope_of_a_declaration)]
 
 EXPLANATION = (
     "R1: the accept/reject arms of check_expr are evaluated arm-by-arm (first-match semantics over name-resolved HIR patterns) "
@@ -696,6 +762,9 @@ EXPLANATION = (
 )
 EXPLANATION += (
     " Added after seeded changes were missed: R2 a rule living in a helper that takes the node as a parameter applies to every kind of node (no kind is exempted on the way to its emit_error), and every statement kind with a condition hands it to check_boolean_expr unconditionally; R4 a redeclaration stores the initialiser's type into the existing scope entry and a new declaration pushes it (found in check_stmt and its closures, whatever the spelling); R5 traversal completeness - in check_expr and check_stmt every child field of every node kind (expressions, argument/element lists, blocks, optional ones on their Some side, callee expressions destructured in place) is handed to a visitor on every path through its arm, directly, through the loop over the list, or through a helper that itself visits its parameter on every path; the one named exception (a function definition that predeclaration did not register) rests on the checked fact that every non-registering path of predeclare_block_functions passes an emit_error."
+)
+EXPLANATION += (
+    " R1c: the result-type table of infer_expr_type (640 cells, finite-domain partial evaluation) is single-valued and symmetric in its operands. R6 (= C04-R4c): the initialiser of a declaration is checked before the variable is declared."
 )
 ASSUMPTIONS = ["the reference predicates in rules/c09.py state the documented typing rules (docs/*.md plus the rule comments in resolver.rs)", "infer_expr_type yields the operand's static type"]
 TRUSTED = ["rustc nightly HIR name resolution and MIR", "nsx exporter", "nsverif pattern evaluator / partial evaluator"]
